@@ -175,7 +175,8 @@ Proof. induction 1; simpl; constructor; auto. Qed.
 
 Lemma nsum_ge : forall x (l : list vec) v, In v l -> nth x v 0 <= nsum x l.
 Proof.
-  induction l as [|w l IH]; intros v [E|Hin]; simpl.
+  induction l as [|w l IH]; intros v Hv; simpl in *; [contradiction|].
+  destruct Hv as [E|Hin].
   - subst. lia.
   - specialize (IH v Hin). lia.
 Qed.
@@ -209,9 +210,10 @@ Proof.
   assert (H01 : forall x, Forall (fun v => nth x v 0 <= 1) (kvecs rs)).
   { intros x. apply kvecs_forall. eapply Forall_impl; [|exact Hrs]. intros r [_ [H _]]. apply H. }
   assert (Hcnt : C (UNode n c sl) + vmax sum = sumc rs + length rs).
-  { rewrite HC. pose proof (nsum_count ms (kvecs rs) (H01 ms)) as Q.
-    rewrite <- Hsum in Q. unfold ms in Q at 2. rewrite first_max_spec in Q.
-    unfold kvecs in Q at 3. rewrite map_length in Q. fold ms in Q. lia. }
+  { assert (Hms : nsum ms (kvecs rs) = vmax sum).
+    { rewrite <- Hsum. unfold ms. apply first_max_spec. }
+    assert (Hlk : length (kvecs rs) = length rs) by (unfold kvecs; apply map_length).
+    rewrite HC. pose proof (nsum_count ms (kvecs rs) (H01 ms)) as Q. lia. }
   assert (Hcontrib : forall x, contrib x rs + nth x sum 0 = C (UNode n c sl) + vmax sum).
   { intros x. rewrite Hsum, Hcnt. apply contrib_eq. exact Hrs. }
   (* some child has a state: the maximum is positive and k > 0 *)
